@@ -731,6 +731,30 @@ class Interp:
                     out[idx + (i, j)] = A[i][j] * di
         return out
 
+    def p_sqr(self, e, ins, p):
+        """contract of jnp.linalg.qr (A2): ANY pair (Q, R) with R upper triangular and Q R = A.  The harness supplies the
+        pair (symbolic Q and R) from which it built A, in call order, through `self.qr_queue`."""
+        a = ins[0]
+        n, k = a.shape[-2], a.shape[-1]
+        qo, ro = obj(a.shape[:-2] + (n, min(n, k))), obj(a.shape[:-2] + (min(n, k), k))
+        queue = self.__dict__.get("qr_queue")
+        if queue is None:
+            raise Unsupported("qr without a contract oracle")
+        for idx in np.ndindex(a.shape[:-2]):
+            if not queue:
+                raise Unsupported("qr contract oracle exhausted")
+            Qm, Rm = queue.pop(0)
+            if Qm.shape != qo[idx].shape or Rm.shape != ro[idx].shape:
+                raise Unsupported(f"qr oracle shapes {Qm.shape},{Rm.shape} do not match {qo[idx].shape},{ro[idx].shape}")
+            for i in range(Rm.shape[0]):
+                for j in range(i):
+                    z = Rm[i, j]
+                    if not (isinstance(z, Q) and z.iszero()) and not (hasattr(z, "_g_domain") and z.iszero()):
+                        raise Unsupported("qr oracle R is not upper triangular")
+            qo[idx] = Qm
+            ro[idx] = Rm
+        return [qo, ro]
+
     def p_sadj(self, e, ins, p):
         a = ins[0]
         out = obj(a.shape)
@@ -784,7 +808,28 @@ class Interp:
         a = ins[0]
         s = a.reshape(-1)[0] if a.size else None
         if s is None or not hasattr(s, "_g_domain"):
-            raise Unsupported("expm outside the graded domain")
+            # Q domain: the matrix exponential is uninterpreted; equal argument matrices give the same matrix of atoms (A3)
+            cache = self.__dict__.setdefault("_expm_cache", {})
+            out = obj(a.shape)
+            n = a.shape[-1]
+            if qdom.NUMERIC[0] and all(Q.lift(x).isconst() for x in a.reshape(-1)):
+                import scipy.linalg
+                for idx in np.ndindex(a.shape[:-2]):
+                    M = np.array([[complex(float(x.c[0]), float(x.c[1])) for x in row] for row in a[idx]])
+                    E = scipy.linalg.expm(M)
+                    out[idx] = self.lit(E if np.iscomplexobj(M) and np.abs(M.imag).max() > 0 else E.real)
+                return out
+            for idx in np.ndindex(a.shape[:-2]):
+                key = tuple(qdom.q_key(x) for x in a[idx].reshape(-1))
+                if key not in cache:
+                    real = all(Q.lift(x).isreal() for x in a[idx].reshape(-1))
+                    M = obj((n, n))
+                    for i in range(n):
+                        for j in range(n):
+                            M[i, j] = Q(1, {qdom.ATOMS.opaque(f"expm[{i},{j}]", is_real=real): 1})
+                    cache[key] = M
+                out[idx] = cache[key]
+            return out
         out = obj(a.shape)
         n = a.shape[-1]
         for idx in np.ndindex(a.shape[:-2]):
@@ -809,7 +854,7 @@ class Interp:
         rng = range(L - 1, -1, -1) if p["reverse"] else range(L)
         cc = [self.lit(c) for c in cj.consts]
         for t in rng:
-            out = self.eval(cj.jaxpr, cc, list(consts) + carry + [x[t] for x in xs])
+            out = self.eval(cj.jaxpr, cc, list(consts) + carry + [_as_arr(x[t]) for x in xs])
             carry = out[:ncar]
             y = out[ncar:]
             if ys is None:
@@ -827,6 +872,17 @@ class Interp:
                 stacked.append(obj(tuple(e.outvars[ncar + k].aval.shape)))
         return carry + stacked
 
+    def p_platform_index(self, e, ins, p):
+        # lax.platform_dependent: index of the branch for the platform the checks (and the test-suite) run on: cpu
+        plats = p["platforms"]
+        for i, ps in enumerate(plats):
+            if ps is not None and "cpu" in ps:
+                return np.array(i, dtype=object).reshape(())
+        for i, ps in enumerate(plats):
+            if ps is None:
+                return np.array(i, dtype=object).reshape(())
+        raise Unsupported("platform_index without a cpu / default branch")
+
     def p_cond(self, e, ins, p):
         branches = p["branches"]
         idx = ins[0][()]
@@ -840,6 +896,14 @@ class Interp:
 
     def p_while(self, e, ins, p):
         raise Unsupported("while loop (unbounded)")
+
+
+def _as_arr(v):
+    if isinstance(v, np.ndarray) and v.dtype == object:
+        return v
+    o = obj(())
+    o[()] = v
+    return o
 
 
 def arr(shape, fn):
